@@ -100,7 +100,7 @@ def fmtV (x : Ext) : V1 → String
   | .bool true => "true"
   | .bool false => "false"
   | .flt s => s
-  | .strs _ => "[…]"
+  | .strs l => "[" ++ " ".intercalate l ++ "]"
   | .tbl => "map[…]"
 
 /-- `_equivalent`: equality of the `%v` texts (two integers print alike iff they are equal). -/
@@ -438,16 +438,20 @@ def loads (x : Ext) (T : List Row) : FileOut → Bool
 
 /-! ## the property's reading of a v1 value: the value the field must have in v2 -/
 
+def expectedBase (x : Ext) : FType → V1 → Eff
+  | .string, .str s | .hostport, .str s | .url, .str s => .str s
+  | .int, .int n | .percentage, .int n => .int n
+  | .bool, .bool b | .defaulttrue, .bool b => .bool b
+  | .duration, .str s => match x.dur s with | some ns => .dur ns | none => .invalid
+  | .memorysize, .int n => .mem n
+  | .stringarray, .strs l => .strs l
+  | _, _ => .invalid
+
+/-- a `secondsToDuration` row holds integer seconds in v1; every other row holds the value itself -/
 def expected (x : Ext) (r : Row) (v : V1) : Eff :=
-  match r.helper, r.ftype, v with
-  | .secondsToDuration, _, .int n => .dur (n * 1000000000)
-  | _, .string, .str s | _, .hostport, .str s | _, .url, .str s => .str s
-  | _, .int, .int n | _, .percentage, .int n => .int n
-  | _, .bool, .bool b | _, .defaulttrue, .bool b => .bool b
-  | _, .duration, .str s => match x.dur s with | some ns => .dur ns | none => .invalid
-  | _, .memorysize, .int n => .mem n
-  | _, .stringarray, .strs l => .strs l
-  | _, _, _ => .invalid
+  match r.helper, v with
+  | .secondsToDuration, .int n => .dur (n * 1000000000)
+  | _, _ => expectedBase x r.ftype v
 
 /-! ## rules files -/
 
